@@ -340,6 +340,9 @@ func checkC20(c *CheckCtx) error {
 	if err := c.repro(manyObsolete()...); err != nil {
 		return err
 	}
+	if err := c.repro(nestedSkips()...); err != nil {
+		return err
+	}
 	return c.summaryHistories()
 }
 
@@ -481,6 +484,48 @@ func manyObsolete() []*Scenario {
 		}})
 		sc.Note = "45 stale entries and 35 stale files next to one live test, mode " + mode
 		out = append(out, sc)
+	}
+	return out
+}
+
+// nestedSkips: skips recorded in every order relative to the skip of an ancestor -- a parent that
+// calls snaps.Skip at the end of its body after its subtests skipped (sequential; with -count 2 the
+// second execution's subtests skip while the parent of the first execution is already recorded),
+// and parallel subtests that skip after the parent's own skip.  Every snaps.Skip* call counts once
+// in the summary (seeded change R6-C20-B).
+func nestedSkips() []*Scenario {
+	var out []*Scenario
+	n := 0
+	sub := func(name string, par bool, kind string) *Step {
+		return &Step{Op: "sub", Name: name, Parallel: par, Steps: []*Step{{Op: "skip", Kind: kind}}}
+	}
+	for _, par := range []bool{false, true} {
+		for _, count := range []int{1, 2, 3} {
+			for _, mode := range []string{"default", "clean"} {
+				n++
+				sc := &Scenario{ID: fmt.Sprintf("nsk%d", n), Configs: stdConfigs(), Program: append([]string{}, topTests...)}
+				body := func() []*Step {
+					return []*Step{{Op: "match", API: "snapshot", Cfg: "c", Val: strVal("parent value")},
+						sub("x", par, "Skip"), sub("y", par, "Skipf"), {Op: "skip", Kind: "Skip"}}
+				}
+				other := func() []*Step {
+					return []*Step{{Op: "match", API: "snapshot", Cfg: "c", Val: strVal("other value")}}
+				}
+				execs := func(b func() []*Step) [][]*Step {
+					var e [][]*Step
+					for i := 0; i < count; i++ {
+						e = append(e, b())
+					}
+					return e
+				}
+				spec := procSpec(mode)
+				spec.Count = count
+				sc.Procs = append(sc.Procs, &Proc{Spec: spec, Real: true, State: "call", Clean: &CleanDef{},
+					Tests: map[string]*TDef{"TestA": {Execs: execs(body)}, "TestB": {Execs: execs(other)}}})
+				sc.Note = fmt.Sprintf("parent skips at the end of its body after subtests that skip (parallel=%v), -count %d, mode %s", par, count, mode)
+				out = append(out, sc)
+			}
+		}
 	}
 	return out
 }
